@@ -9,8 +9,8 @@ PROP = dict(
     exhaustive=True,
     assumptions=TRUST,
     bins=[
-        rc('C17_index', 'harness/C17_index.cpp', None, thorough=dict(scale=10, seeds=2)),
-        rc('C17_array', 'harness/C17_array.cpp', None, thorough=dict(scale=10, seeds=2)),
-        rc('C17_bigmem', 'harness/C17_bigmem.cpp', None, thorough=dict(scale=10, seeds=2)),
+        rc('C17_index', 'harness/C17_index.cpp', None, thorough=dict(scale=5, seeds=2)),
+        rc('C17_array', 'harness/C17_array.cpp', None, thorough=dict(scale=5, seeds=2)),
+        rc('C17_bigmem', 'harness/C17_bigmem.cpp', None, thorough=dict(scale=5, seeds=2)),
     ],
 )
